@@ -632,7 +632,7 @@ C12_Step(s, a, x) ==
              (ys[j] = 0) <=> (Cardinality({ys[i] : i \in 1..(j - 1)} \ {0}) = Len(ks))
        /\ (a.op \in BorrowingKinds => x.s = s /\ x.dropped = {} /\ x.handed = {})
        /\ (a.op = "drain" => /\ x.s.alive /\ x.s.ord = <<>> /\ x.s.cur = 0
-                             /\ x.s.max = s.max /\ x.s.b = s.b)
+                             /\ x.s.max = s.max)
        /\ (a.op \in OwningKinds => ~x.s.alive)
        /\ (a.op \notin BorrowingKinds /\ ~a.fl) =>
              MarkersOf(rest) \subseteq x.dropped     \* the unconsumed rest is dropped
